@@ -106,10 +106,36 @@ def job_map_observers(res, n, it, fptrack):
     nn = ex.run1(st, 'e_drf_nnext', [drf]).retval
     res.obs.append(Ob('getPastModulation leaves the pending modulation queue length unchanged (%s)' % nn, 'holds' if nn == 2 else 'violated', key='frame-getPast'))
 
+
+def job_drf_noninterference(res, n, it, which):
+    """Fetching the applied-modulation record (done only when a record is written) must not influence later steps: the same steps with and without
+    interleaved getPastModulation() calls leave the same grid, displacement field and pending modulation (noise draws: shared symbols, one per draw)."""
+    import c19
+    bld = maps_build(); mod = load_module(bld, MAPS_MODS)
+    snap, R, pre = maps_world(bld, n, 1, it); drf = R[which]
+    def run(schedule):
+        draws = []
+        ex = Exec(mod, snap, RealDom()); ex.ext_prefix.append((c19.NORMAL_PFX, c19.normal_real(draws))); st = State()
+        for op in schedule: st = ex.run1(st, 'e_apply' if op == 'a' else 'e_drf_past', [drf])
+        nn = ex.run1(st, 'e_drf_nnext', [drf]).retval; npast = ex.run1(st, 'e_drf_npast', [drf]).retval
+        obs = {'grid': get_reals(ex, st, R['data_out'], n * n), 'field': get_reals(ex, st, ex.run1(st, 'e_force', [drf]).retval, n), 'pending': nn}
+        if nn: fp = ex.run1(st, 'e_drf_front', [drf]).retval; obs['queue'] = get_reals(ex, st, fp, 2 * min(nn, 32))
+        else: obs['queue'] = []
+        res.paths += 1; res.instrs += st.nins
+        return obs, st, npast, ex
+    ref, s0, np0, ex0 = run('aaa'); account(res, ex0, mod, [s0])
+    for sched in ('apapa', 'paapa', 'apaap', 'appaa'):
+        o, s1, np1, _ = run(sched)
+        same_len = o['pending'] == ref['pending'] and len(o['queue']) == len(ref['queue'])
+        diffs = [a != b for k in ('grid', 'field', 'queue') for a, b in zip(o[k], ref[k])] if same_len else [z3.BoolVal(True)]
+        prove(res, '%s n=%d it=%d: three steps with the record fetched in between (schedule %s) leave grid, displacement field and pending modulation (%d entries) identical to three steps without fetching' % (which, n, it, sched, ref['pending']),
+              list(s0.pc) + list(s1.pc), z3.Or(*diffs) if diffs else z3.BoolVal(False), key='record-fetch-noninterference', cex_fn=lambda m, sched=sched: {'replay': 'frame', 'call': 'getPastModulation', 'schedule': sched, 'pending': [ref['pending'], o['pending']]})
+        res.obs.append(Ob('fetching really empties the record in schedule %s (%d entries left vs %d without fetching): the comparison is not vacuous' % (sched, np1, np0), 'witness-ok' if np1 < np0 else 'witness-failed', kind='witness'))
+
 def main(tier):
     chk = Check('C12', tier, '4/C12')
     jobs = [(job_ps_observers, (5, 2, 1)), (job_ps_observers, (4, 3, 2)), (job_field_observers, (4, 12, 5, (1, 0))), (job_field_observers, (4, 8, 0, (0,))), (job_h5_observers, (4, 2, 12, 2)),
-            (job_map_observers, (8, 4, 1)), (job_map_observers, (8, 2, 2)), (job_map_observers, (8, 4, 3))]
+            (job_map_observers, (8, 4, 1)), (job_map_observers, (8, 2, 2)), (job_map_observers, (8, 4, 3)), (job_drf_noninterference, (8, 4, 'drfsin')), (job_drf_noninterference, (8, 3, 'drflin'))]
     jobs += mainloop.jobs_for('C12', tier)
     K = 2 if tier == 'quick' else 3
     chk.bounds = {'frame conditions': 'write sets of symbolic runs of every observer call on small grids (4-8), all data symbolic', 'schedule independence': 'all paths of main\'s loop with <= %d iterations; symbolic cadences and presence flags' % K}
